@@ -917,7 +917,6 @@ htp_status_t htp_connp_REQ_FINALIZE(htp_connp_t *connp) {
         } // else continue
         if (connp->in_body_data_left <= 0) {
             // log only once per transaction
-            HTP_VERIF_TP(connp, connp->in_tx, "req_finalize_body");
             htp_log(connp, HTP_LOG_MARK, HTP_LOG_WARNING, 0, "Unexpected request body");
         } else {
             connp->in_body_data_left = 1;
@@ -929,6 +928,7 @@ htp_status_t htp_connp_REQ_FINALIZE(htp_connp_t *connp) {
         htp_connp_req_consolidate_data(connp, &data, &len);
     }
     // Interpret remaining bytes as body data
+    HTP_VERIF_TP(connp, connp->in_tx, "req_finalize_body");
     htp_status_t rc = htp_tx_req_process_body_data_ex(connp->in_tx, data, len);
     htp_connp_req_clear_buffer(connp);
     return rc;
